@@ -521,7 +521,10 @@ impl TypeChecker {
             S::Definition { .. } => self.definition(statement, ctx),
 
             S::Loop { condition, body, span } => {
-                let (ret, condition) = self.expression(&condition, ctx)?;
+                // The condition is evaluated inside the emitted loop but is not part of its body:
+                // a `break` or `continue` there has no loop it could sensibly refer to.
+                let condition_ctx = TypeCtx { inside_loop: false, ..ctx };
+                let (ret, condition) = self.expression(&condition, condition_ctx)?;
                 let boolean = self.push_type(Type::Bool);
                 self.unify(*span, ctx, boolean, condition)?;
 
